@@ -168,6 +168,11 @@ func (cr *CheckRun) CheckFS() {
 		return
 	}
 	w := rw.W
+	// small helpers of goag.go without a contract of their own are unfolded at
+	// their call sites (an extracted helper does not need a new contract)
+	w.InlineNamed = func(f *ssa.Function) bool {
+		return f.Pkg != nil && f.Pkg.Pkg.Path() == repoPkg && len(f.Blocks) <= 12
+	}
 	want := []string{repoPkg + ".WriteToFile", repoPkg + ".RenderToFile", "(" + repoPkg + ".Generator).Generate"}
 	for _, n := range want {
 		fn := w.funcByName(n)
